@@ -80,8 +80,11 @@ CLAIMS = {
              'start value 1; inclusive loop guard; Ok only under bound <= assumed with payload service_time(w(assumed)) - '
              'offset; sole update := bound on the complementary branch; divergence_limit never reaches an Ok payload '
              '(non-interference); Err payload and who-may-construct; search == search_with_offset at offset 0 in dbg and '
-             'rel; max_response_time comparator table / default / no adaptor; agreement with the debug linear scan; default '
-             'service_time start/return/step. Leastness for numeric workloads is not decided.',
+             'rel; max_response_time as a selection table over (left Ok?, right Ok?) of the pairwise combinator (max_by comparator '
+             'or reduce function alike) / default / no adaptor; agreement with the debug linear scan incl. the arguments of the '
+             'cross-check; default service_time start/return/step. The clauses follow a loop that was extracted into a private '
+             'helper, and `while` / `loop`+`break v` / early `return` are one exit set. The supply laws of C09 are imported '
+             '(service_time(0) = 0 etc.). Leastness for numeric workloads is not decided.',
         ref='7/C08'),
     'C19': dict(
         technique='sibling comparison: term identity under substitution; signature/use analysis for supply-parametricity; linear entailment for the supply reductions',
@@ -102,7 +105,12 @@ CLAIMS = {
              '(spec/vetted_sites.json); anything else -- e.g. saturating_sub turned into `-`, a removed guard -- is a '
              'violation. TERM: loops match a strict-progress pattern or a vetted argument; no draining consumer on an '
              'unbounded iterator; no next/peek over filter(infinite). PROFILE: every function and closure computes the same '
-             'canonical term in both configurations modulo one vetted identity wrapper. Positive/negative controls on a '
+             'canonical term in both configurations modulo one vetted identity wrapper. SITE-COND: the condition of every '
+             'vetted assert is compared with the vetted entry (a weakened or strengthened assert is reported). FWD: every auto_impl '
+             'wrapper of a model trait forwards every method. FP-SIB / BW-SIB: the debug-only cross-checks compare the production '
+             'result with the same computation on the same arguments. Site discharge also uses linear entailment with '
+             'quotient/remainder facts and the documented monotone tables; a site relocated into / out of a private helper, or an '
+             '.expect() that fails exactly when a vetted panic!() did, keeps its vetted invariant. Positive/negative controls on a '
              'fixtures crate run every time. Not decided: that the vetted invariants hold; floating point.',
         ref='7/C20'),
     'C09': dict(
